@@ -227,3 +227,26 @@ func TestZZFixedD22D25Sizes(t *testing.T) {
 		t.Fatalf("read returned %d bytes eof=%v", len(r.Resok.Data), r.Resok.Eof)
 	}
 }
+
+// D-35: RENAME over an existing (empty) directory dropped the target without
+// giving back the link the target's ".." held on its parent.
+func TestZZFixedD35RenameOverDirLinks(t *testing.T) {
+	c := MkNfsClient(100 * 1000)
+	defer c.Shutdown()
+	root := fh.MkRootFh3()
+	a := c.MkDirOp(root, "a").Resok.Obj.Handle
+	c.MkDirOp(a, "x")
+	c.MkDirOp(a, "y")
+	if st := c.RenameOp(a, "x", a, "y"); st != 0 {
+		t.Fatalf("rename a/x -> a/y: %d", st)
+	}
+	if r := c.RmDirOp(a, "y"); r.Status != 0 {
+		t.Fatalf("rmdir a/y: %d", r.Status)
+	}
+	if r := c.RmDirOp(root, "a"); r.Status != 0 {
+		t.Fatalf("rmdir a: %d", r.Status)
+	}
+	if g := c.GetattrOp(a); g.Status != nfstypes.NFS3ERR_STALE {
+		t.Fatalf("directory a is still live after rmdir (status %d): its link count was never lowered when y was replaced", g.Status)
+	}
+}
